@@ -213,7 +213,7 @@ func main() {
 		}
 		return
 	}
-	n := 24
+	n := 40
 	if o.Thorough() {
 		n = 300
 	}
